@@ -1287,7 +1287,7 @@ def compile_match_expression(compiler, expr, root, subject, clauses):
     lifted_if_defs = []
     match_cases = []
     for *pattern, guard, body in clauses:
-        if guard and body == Keyword("as"):
+        if guard is not None and body == Keyword("as"):
             compiler._syntax_error(body, ":as clause cannot come after :if guard")
 
         body = compiler._compile_branch([body])
@@ -1297,7 +1297,7 @@ def compile_match_expression(compiler, expr, root, subject, clauses):
 
         pattern = compile_pattern(compiler, pattern)
 
-        if guard:
+        if guard is not None:
             guard = compiler.compile(guard)
             if guard.stmts:
                 fname = compiler.get_anon_var()
@@ -1322,7 +1322,7 @@ def compile_match_expression(compiler, expr, root, subject, clauses):
         match_cases.append(
             ast.match_case(
                 pattern=pattern,
-                guard=guard.force_expr if guard else None,
+                guard=guard.force_expr if guard is not None else None,
                 body=body,
             )
         )
